@@ -34,19 +34,22 @@ type notification struct {
 }
 
 type IndexNotificationQueue struct {
-	items  *util.SyncMap[string, *heap.Heap[*item]]
-	add    chan *item
-	notif  chan notification
-	len    chan reqlen
-	closed chan struct{}
+	items *util.SyncMap[string, *heap.Heap[*item]]
+	// notified holds the last notified revision of a table, accessed just from the Run loop.
+	notified map[string]uint64
+	add      chan *item
+	notif    chan notification
+	len      chan reqlen
+	closed   chan struct{}
 }
 
 func NewNotificationQueue() *IndexNotificationQueue {
 	return &IndexNotificationQueue{
-		add:    make(chan *item),
-		notif:  make(chan notification),
-		closed: make(chan struct{}),
-		len:    make(chan reqlen),
+		add:      make(chan *item),
+		notified: make(map[string]uint64),
+		notif:    make(chan notification),
+		closed:   make(chan struct{}),
+		len:      make(chan reqlen),
 		items: util.NewSyncMap(func(_ string) *heap.Heap[*item] {
 			return heap.New((*item).less)
 		}),
@@ -78,9 +81,16 @@ func (q *IndexNotificationQueue) Run() {
 				}
 			})
 		case it := <-q.add:
+			// The revision might have been notified already (before the waiter got here), answer at once
+			// as there might be no other notification coming for a long time.
+			if rev, ok := q.notified[it.table]; ok && it.revision <= rev {
+				close(it.waitCh)
+				continue
+			}
 			h, _ := q.items.Load(it.table)
 			h.Push(it)
 		case n := <-q.notif:
+			q.notified[n.table] = n.revision
 			h, _ := q.items.Load(n.table)
 			l := h.Len()
 			for i := 0; i < l; i++ {
